@@ -86,7 +86,8 @@ Section TextFormat.
   Proof. exact IOFrontProofs.txt_empty_file_rejected. Qed.
 
   Theorem txt_load_is_codec : forall k fl,
-    f_ascii fl = true -> starts_with MAGIC_MAT (fst (read_tag (f_bytes fl))) = false ->
+    f_ascii fl = true -> forallb is_text (fst (read_tag (f_bytes fl))) = true ->
+    starts_with MAGIC_MAT (fst (read_tag (f_bytes fl))) = false ->
     load [FMat; FTxt; FTex; FBin] 1 k fl = txt_decode k (f_lines fl).
   Proof. exact IOFrontProofs.txt_load_is_codec. Qed.
 
@@ -130,3 +131,12 @@ Theorem csc_roundtrip_small :
     [(0,0);(0,3);(3,0);(1,1);(1,4);(4,1);(2,2);(2,3);(3,2);(3,3);(3,4);(4,3)]%nat = true.
 Proof. exact CscCodecProofs.csc_sweep_all. Qed.
 Print Assumptions csc_roundtrip_small.
+
+(* MATLAB sparse CSC conversion, in general: for every strictly sorted (row,col)->value map within its dimensions,
+   read_sparse of what write_sparse hands to libmatio is the map itself -- dimensions, entry count and every stored
+   word (so a stored +0.0 or -0.0 survives).  The container between the two is assumed faithful. *)
+Theorem csc_roundtrip : forall nl nc es, 0 <= nl -> 0 <= nc -> sorted_keys es ->
+  (forall e, In e es -> 0 <= fst (fst e) < nl /\ 0 <= snd (fst e) < nc) ->
+  read_csc (write_csc nl nc es) = Ok (OSparse nl nc es).
+Proof. exact CscCodecProofs.csc_roundtrip. Qed.
+Print Assumptions csc_roundtrip.
